@@ -34,7 +34,7 @@ TRUSTED_BASE = [
 PROPS = {
     'C01': dict(k2=[('walk', {'res', 'holder'})], k1=['verdict', 'struct']),
     'C02': dict(k2=[], k1=['struct'], k3=['methods']),
-    'C03': dict(k1s=True, k2=[('guards', {'res', 'trace'})], k1=[]),
+    'C03': dict(k1s=True, k2=[('guards', {'res', 'trace'})], k1=[], k3=['types']),
     'C04': dict(k1s=True, k2=[('walk', {'res', 'trace'}), ('async', {'res', 'trace'})], k1=[], k3=['types']),
     'C05': dict(k1s=True, k2=[('refuse', {'res', 'trace', 'holder'})], k1=[]),
     'C06': dict(k1s=True, k2=[('around', {'res', 'trace', 'holder'})], k1=[], k4=True),
@@ -42,7 +42,7 @@ PROPS = {
     'C08': dict(k1s=True, k2=[('data', {'res', 'trace', 'holder'}), ('walk', {'holder', 'trace'})], k1=[], k3=['types']),
     'C09': dict(k2=[('pair', ALL)], k1=[], direct=['pair'], k4=True, k3=['types']),
     'C10': dict(k1s=True, names=True, k2=[('conv', {'res', 'holder', 'c'})], k1=[], k3=['types']),
-    'C11': dict(names=True, k2=[('data', {'res', 'holder'}), ('abandon', {'res', 'holder'})], k1=[], k3=['types'], k4=True),
+    'C11': dict(k1s=True, names=True, k2=[('data', {'res', 'holder'}), ('abandon', {'res', 'holder'})], k1=[], k3=['types'], k4=True),
     'C12': dict(names=True, k2=[('guards', {'res'}), ('around', {'res'}), ('walk', {'res'})], k1=[], k4=True, k3=['rename']),
     'C13': dict(k2=[], k1=['verdict', 'mutants'], k3=['reject']),
     'C14': dict(names=True, k2=[], k1=['verdict', 'struct'], k3=['compile']),
